@@ -32,6 +32,10 @@ pub enum St {
     Restart,
     /// environment fault: the key directory disappears while the agent runs; a rotation follows at once
     RemoveKeyDir,
+    /// requesters that go away: every question the shared key state answers is asked and abandoned after its first poll (a
+    /// client that disconnects while its request is being signed, a task that loses a select at shutdown), then the state
+    /// task runs; `n` rounds
+    AbandonedReaders(u8),
 }
 
 #[derive(Clone, Debug, Serialize, Deserialize, Hash)]
@@ -44,7 +48,7 @@ pub struct Case {
 }
 
 fn key_shape() -> impl Strategy<Value = KeyShape> {
-    prop_oneof![8 => Just(KeyShape::Good), 1 => Just(KeyShape::NonHex), 1 => Just(KeyShape::OddLength), 1 => Just(KeyShape::GuidPathNew), 1 => Just(KeyShape::GuidPathExisting), 1 => (0u8..3).prop_map(KeyShape::GuidSpecial), 1 => Just(KeyShape::Hex512), 1 => Just(KeyShape::Hex128)]
+    prop_oneof![8 => Just(KeyShape::Good), 1 => Just(KeyShape::NonHex), 1 => Just(KeyShape::OddLength), 1 => Just(KeyShape::GuidPathNew), 1 => Just(KeyShape::GuidPathExisting), 1 => (0u8..3).prop_map(KeyShape::GuidSpecial), 1 => Just(KeyShape::Hex512), 1 => Just(KeyShape::Hex128), 1 => Just(KeyShape::Hex768)]
 }
 
 fn client() -> impl Strategy<Value = Client> {
@@ -76,6 +80,7 @@ fn st() -> impl Strategy<Value = St> {
         6 => client().prop_map(St::Client),
         1 => Just(St::Restart),
         1 => Just(St::RemoveKeyDir),
+        2 => (1u8..4).prop_map(St::AbandonedReaders),
     ]
 }
 
@@ -83,7 +88,7 @@ pub fn strategy() -> impl Strategy<Value = Case> {
     (enabled_doc(), prop::collection::vec(st(), 2..12), prop::bool::weighted(0.15)).prop_map(|(first, steps, key_dir_is_link)| Case { first, steps, key_dir_is_link })
 }
 
-pub const RULE: &str = "generator: run histories of the real KeyKeeper + ProxyServer with file logging configured exactly as service::start_service does (Trace level), the event logger flushing every 10 ms and the status task writing status.json every 20 ms: status documents (C09), key rotations, failing acquire/attest calls with error bodies, key responses that are well-formed but carry a non-hex or odd-length key, a valid hex key of another size (512 / 128 bit) or a key id that is a relative path (into a folder that does not exist / that exists next to the key directory), the key directory removed while the agent runs (environment fault, followed by a rotation), in 15% of the histories the configured key directory is a symbolic link to a directory with ordinary permissions, status failures, restarts of the agent on the same directories, interleaved with client traffic through the proxy (relayed signed requests, denied requests, direct connections, /provision queries with/without notify, with past/current/future ticks). taint set: every key value delivered in a parseable key response, as given, lower/upper-cased, as raw bytes and as base64 of both. sinks searched after every history: every file under the log directory (incl. connection log and rule dumps), the event directory, the status directory, non-key files of the key directory (status.tag, provisioned.tag), every file next to the key directory, the /dev/console stand-in, the process's stdout/stderr, and every byte returned to the local client. Also after every history: the key directory has mode 0700 and owner root. non-trivial: history with >= 1 successful latch and >= 1 host fault or denied//provision request after it; distinct by hash of the history.";
+pub const RULE: &str = "generator: run histories of the real KeyKeeper + ProxyServer with file logging configured exactly as service::start_service does (Trace level), the event logger flushing every 10 ms and the status task writing status.json every 20 ms: status documents (C09), key rotations, failing acquire/attest calls with error bodies, key responses that are well-formed but carry a non-hex or odd-length key, a valid hex key of another size (512 / 128 bit) or a key id that is a relative path (into a folder that does not exist / that exists next to the key directory), the key directory removed while the agent runs (environment fault, followed by a rotation), readers of the shared key state that are dropped after their first poll (the state task finds nobody to answer), in 15% of the histories the configured key directory is a symbolic link to a directory with ordinary permissions, status failures, restarts of the agent on the same directories, interleaved with client traffic through the proxy (relayed signed requests, denied requests, direct connections, /provision queries with/without notify, with past/current/future ticks). taint set: every key value delivered in a parseable key response, as given, lower/upper-cased, as raw bytes and as base64 of both. sinks searched after every history: every file under the log directory (incl. connection log and rule dumps), the event directory, the status directory, non-key files of the key directory (status.tag, provisioned.tag), every file next to the key directory, the /dev/console stand-in, the process's stdout/stderr, and every byte returned to the local client. Also after every history: the key directory has mode 0700 and owner root. non-trivial: history with >= 1 successful latch and >= 1 host fault or denied//provision request after it; distinct by hash of the history.";
 
 pub struct Env {
     pub stdio_log: Option<PathBuf>,
@@ -348,6 +353,27 @@ pub fn eval(rig: &KeeperRig, env: &mut Env, known: &crate::report::Known, case: 
                 if let Err(e) = rig.run_step(Step { keep_doc: true, rotate: true, key_shape: Some(KeyShape::Good), ..Default::default() }, 2, timeout) {
                     inconclusive = Some(format!("step {} (key directory removed): {}", i, e));
                 }
+            }
+            St::AbandonedReaders(n) => {
+                stats.class("step:key-readers-abandoned-after-their-first-poll");
+                let ks = agent.shared.get_key_keeper_shared_state();
+                rig.rt.block_on(async {
+                    for _ in 0..*n {
+                        // `biased`: the question is polled once (it is queued to the state task), then the other branch wins and the
+                        // question - with the receiving end of its answer - is dropped
+                        tokio::select! { biased; _ = ks.get_current_key_guid_and_value() => {}, _ = std::future::ready(()) => {} }
+                        tokio::select! { biased; _ = ks.get_current_key_value() => {}, _ = std::future::ready(()) => {} }
+                        tokio::select! { biased; _ = ks.get_current_key_guid() => {}, _ = std::future::ready(()) => {} }
+                        tokio::select! { biased; _ = ks.get_current_key_incarnation() => {}, _ = std::future::ready(()) => {} }
+                        // let the state task get to the abandoned questions
+                        for _ in 0..20 {
+                            tokio::task::yield_now().await;
+                        }
+                        tokio::time::sleep(Duration::from_millis(2)).await;
+                        // and it still answers
+                        let _ = ks.get_current_key_guid().await;
+                    }
+                });
             }
             St::Restart => {
                 stats.class("step:restart");
